@@ -57,6 +57,8 @@ EXTRA_SEEDS = [
 BFS_SEEDS = [
     ('import m2\nfn u(p, q) { m2.mk(b: q, a: p) }\n', 'pub fn mk(a x: Int, b y: String) { #(x, y) }\n'),
     'fn f(a, b) { case a, b { 1, c -> c _, _ -> f(b, a) } }\n',
+    # prefix operators where patterns are expected (list element, tuple field, constructor argument)
+    'fn g(l) { case l { [-1, ..] -> 0 #(-2, Ok(-3)) -> 1 } }\n',
 ]
 
 
